@@ -368,7 +368,16 @@ fn reprint(r: &mut Rng, bs: &[BdlBlock], crlf: bool) -> String {
         }
         for (k, v) in &vals(b) {
             match v {
-                V::Number(x) => lines.push(format!("{}{} ={}{}", ws(r), k, ws(r), x)),
+                V::Number(x) => {
+                    // the same f32 in another spelling: shortest decimal, exponent forms, explicit sign
+                    let t = match r.below(5) {
+                        0 => format!("{:E}", x),
+                        1 => format!("{:e}", x),
+                        2 if *x >= 0.0 => format!("+{}", x),
+                        _ => format!("{}", x),
+                    };
+                    lines.push(format!("{}{} ={}{}", ws(r), k, ws(r), t))
+                }
                 V::String(s) if s.starts_with('(') => lines.push(format!("{}{}{}= {}", ws(r), k, ws(r), s)),
                 V::String(s) => lines.push(format!("{}{}{}= \"{}\"{}", ws(r), k, ws(r), s, ws(r))),
             }
@@ -395,6 +404,7 @@ pub fn run(a: &Args) -> Batch {
     let mut order: Vec<usize> = (0..real.len()).collect();
     r.shuffle(&mut order);
     let mut nreprinted = 0usize;
+    let mut ntyped_real = 0usize;
     for &i in order.iter().take(nreal) {
         let (name, text) = &real[i];
         cases.push(case_of(text, json!({"kind": "real file", "file": name, "chars": text.chars().count()}), true));
@@ -425,6 +435,23 @@ pub fn run(a: &Args) -> Batch {
             };
             if let Some(d) = diff {
                 impl_findings.push(json!({"kind": "reprint_differs", "file": name, "detail": d, "classes": ["reprint_differs"]}));
+            }
+            // ... and the typed elements built from them (every block type the file uses) must be the same
+            let typed = |t: &str| -> String {
+                let t = t.to_string();
+                match crate::guarded(std::panic::AssertUnwindSafe(move || hulc::bdl::Data::new(&t).map(|d| format!("{:?}", d)).map_err(|e| e.to_string()))) {
+                    Ok(Ok(s)) => s,
+                    Ok(Err(e)) => format!("ERROR {}", e),
+                    Err(p) => format!("PANIC {}", p),
+                }
+            };
+            let (ta, tb) = (typed(text), typed(&t2));
+            ntyped_real += 1;
+            if ta != tb {
+                let at = ta.bytes().zip(tb.bytes()).position(|(x, y)| x != y).unwrap_or(0);
+                let lo = at.saturating_sub(120);
+                let cut = |s: &str| -> String { s.chars().skip(s[..lo.min(s.len())].chars().count()).take(300).collect() };
+                impl_findings.push(json!({"kind": "typed_elements_differ_after_reprint", "file": name, "as_shipped": cut(&ta), "re_printed": cut(&tb), "classes": ["typed_value_not_recovered"]}));
             }
             cases.push(case_of(&t2, json!({"kind": "real file re-printed", "file": name, "chars": t2.chars().count()}), true));
         }
@@ -498,8 +525,8 @@ pub fn run(a: &Args) -> Batch {
         agree: "agree_C18any".into(),
         cases,
         impl_findings,
-        rule: "real files = BDL text of the shipped .ctehexml projects and legacy .cte files (all in the thorough tier, a seeded slice of 8 of those under 150 kB in the quick tier), as shipped and re-printed from their parsed blocks in another layout (indentation, spacing around '=', CRLF, comment lines); printed documents = 1..40 blocks of any of the 53 block types with 0..8 attributes: numbers (integers, decimals, signs, leading/trailing dot, lower and upper case exponents, f32 extremes), bare words, quoted strings (empty, with '=', '$', parentheses, numeric content), one-line and multi-line lists (closing parenthesis on the last item or on its own line), under random indentation, trailing blanks, blank and comment lines, CRLF, and the legacy LIDER preamble; names are identifiers that are not numeric literals; non-trivial = some block has attributes. Besides the Coq cases, three differential tests in Rust (no theorem): MATERIAL / GLASS-TYPE / NAME-FRAME / BUILDING-SHADE / WINDOW blocks with random values, optional attributes (legacy defaults) and attribute order through bdl::Data::new; KyGananciasSolares.txt in both column layouts with either decimal separator; NewBDL_O.tbl files - every written value must come back bit-exactly".into(),
-        stats: json!({"real_files": nreal, "real_files_reprinted": nreprinted, "printed_documents": a.n, "printed_blocks": nblocks, "printed_attributes": nattrs,
+        rule: "real files = BDL text of the shipped .ctehexml projects and legacy .cte files (all in the thorough tier, a seeded slice of 8 of those under 150 kB in the quick tier), as shipped and re-printed from their parsed blocks in another layout (indentation, spacing around '=', CRLF, comment lines, numbers re-spelled with exponents or an explicit sign), where the typed elements (bdl::Data, compared through Debug) must also be identical; printed documents = 1..40 blocks of any of the 53 block types with 0..8 attributes: numbers (integers, decimals, signs, leading/trailing dot, lower and upper case exponents, f32 extremes), bare words, quoted strings (empty, with '=', '$', parentheses, numeric content), one-line and multi-line lists (closing parenthesis on the last item or on its own line), under random indentation, trailing blanks, blank and comment lines, CRLF, and the legacy LIDER preamble; names are identifiers that are not numeric literals; non-trivial = some block has attributes. Besides the Coq cases, three differential tests in Rust (no theorem): MATERIAL / GLASS-TYPE / NAME-FRAME / BUILDING-SHADE / WINDOW blocks with random values, optional attributes (legacy defaults) and attribute order through bdl::Data::new; KyGananciasSolares.txt in both column layouts with either decimal separator; NewBDL_O.tbl files - every written value must come back bit-exactly".into(),
+        stats: json!({"real_files": nreal, "real_files_reprinted": nreprinted, "real_files_typed_elements_compared": ntyped_real, "printed_documents": a.n, "printed_blocks": nblocks, "printed_attributes": nattrs,
                        "attribute_kinds": {"number": kinds[0], "word": kinds[1], "quoted": kinds[2], "list": kinds[3]},
                        "typed_elements": typed_stats, "kyg": kyg_stats, "kyg_files_in_coq": nkyg, "tbl": tbl_stats}),
     }
